@@ -270,7 +270,7 @@ def brackets(in_file, in_encoding, **params):
                             if 'disco_reordered' in params:
                                 for terminal in trees.terminals(queue[0]):
                                     terminal.data['word'] = terminal.data['word'] + "-" \
-                                        + tokenmap[terminal.data['num']]
+                                        + tokenmap[int(terminal.data['word'])]
                             else:
                                 for terminal in trees.terminals(queue[0]):
                                     terminal.data['num'] = int(terminal.data['word'])
